@@ -1206,8 +1206,18 @@ class _CompForRule(_CheckAssignmentRule):
         if expr_list.type != 'expr_list':  # Already handled.
             self._check_assignment(expr_list)
 
-        return node.parent.children[0] == 'async' \
-            and not self._normalizer.context.is_async_funcdef()
+        if node.parent.children[0] != 'async' \
+                or self._normalizer.context.is_async_funcdef():
+            return False
+        if self._normalizer.version >= (3, 7):
+            # Asynchronous generator expressions are allowed everywhere
+            # since Python 3.7, only the other comprehensions need an
+            # asynchronous function.
+            container = node.parent.parent
+            if container.type == 'argument' \
+                    or container.type == 'testlist_comp' and container.parent.children[0] == '(':
+                return False
+        return True
 
 
 @ErrorFinder.register_rule(type='expr_stmt')
